@@ -50,7 +50,7 @@ def base_rules():
 def plan(tier, seed):
     # the planner does not import the repository; shards split the rule list by index modulo
     K = 16
-    return [{'name': 'rules-%d' % k, 'k': k, 'K': K, 'boxes': 6 if tier == 'quick' else 40} for k in range(K)] + \
+    return [{'name': 'rules-%d' % k, 'k': k, 'K': K, 'boxes': 6 if tier == 'quick' else 160} for k in range(K)] + \
            [{'name': 'models', 'models': True}]
 
 
